@@ -1343,7 +1343,8 @@ where
             results.push(value);
         }
         if let Some(blob) = self.active_blob.as_ref() {
-            let value = (blobs.len(), blob.read().await.records_count());
+            let blob = blob.read().await;
+            let value = (blob.id(), blob.records_count());
             debug!("push: {:?}", value);
             results.push(value);
         }
